@@ -468,6 +468,8 @@ fn exhaustive_blocks(max_log_n: u8) -> Vec<Vec<BeCase>> {
                         p: k,
                         q: 40,
                         r: 0,
+                        x: [0; 4],
+                        wide: false,
                         cls: [VClass::Uniform, VClass::Uniform, VClass::Uniform],
                         seed: (k as u64).wrapping_mul(0x9E37) ^ (log_n as u64) << 32,
                     };
